@@ -9,6 +9,7 @@ import (
 	"strconv"
 	"sync"
 	"sync/atomic"
+	"time"
 
 	"github.com/ChrisTrenkamp/xsel"
 
@@ -105,9 +106,13 @@ func RunMonitor(id, tier string, seed uint64, only int) int {
 				if only >= 0 && i != only {
 					continue
 				}
+				t0 := time.Now()
 				guard(fmt.Sprintf("case %d", i), func() {
 					m.Case(r, tier, i, rng.New(seed, fmt.Sprintf("%s/%d", id, i)))
 				})
+				if dt := time.Since(t0); dt > 5*time.Second && os.Getenv("VERIF_DEBUG") != "" {
+					fmt.Printf("slow case %d: %v\n", i, dt)
+				}
 			}
 		}()
 	}
